@@ -2872,6 +2872,13 @@ func (c *BytecodeCompiler) compileForIn(
 	if !collectionLiteral {
 		c.emit(location.EndPos.Line, bytecode.POP)
 	}
+	// every iteration gets fresh copies of the captured locals
+	closeUpvaluesOffset := c.nextInstructionOffset()
+	c.closeUpvaluesInCurrentScope(location.EndPos.Line)
+	if c.nextInstructionOffset() != closeUpvaluesOffset {
+		// `continue` has to close the upvalues of this iteration as well
+		continueOffset = closeUpvaluesOffset
+	}
 	if c.additionalAbortChecks {
 		c.emit(location.EndPos.Line, bytecode.CHECK_ABORT)
 	}
